@@ -46,6 +46,9 @@ pub enum SOp {
     Complete,
     /// let everything settle
     Settle,
+    /// the client announces its own shutdown (GOAWAY with a push id on its control stream): once everything handed out has
+    /// ended, accept() reports 'no more requests' - the one way to get there without a request beyond the line
+    PeerGoaway,
 }
 
 #[derive(Default, Debug, Clone)]
@@ -208,6 +211,7 @@ pub fn run_server(ops: &[SOp], style: Style, sched: &[u16], credit: u64, newest_
                 completed += 1;
             }
             SOp::Settle => pops.push(PeerOp::Barrier),
+            SOp::PeerGoaway => pops.push(PeerOp::Write(0, rf::varint_frame(rf::T_GOAWAY, 0))),
         }
     }
     for k in late {
@@ -320,11 +324,17 @@ pub fn run_server(ops: &[SOp], style: Style, sched: &[u16], credit: u64, newest_
     // "no more requests" ends the application's accept loop: a request stream that had already arrived then is never looked
     // at again - it is neither served nor refused with H3_REQUEST_REJECTED (its client learns nothing until the connection
     // goes away)
-    if !obs.left_in_queue.is_empty() {
+    // (judged with unlimited send credit only: there the final GOAWAY of accept() is written within the poll that decides to
+    // end, so nothing can arrive between the decision and the return; a stream that arrives while that write waits for credit
+    // is in the same position as one that arrives after accept() has returned - nobody polls the connection for it)
+    if !obs.left_in_queue.is_empty() && credit == UNLIMITED {
         return fail(format!("accept() reported 'no more requests' while the request stream(s) {:?} were waiting in the transport's accept queue: they are neither served nor rejected with H3_REQUEST_REJECTED (last GOAWAY id sent: {:?})", obs.left_in_queue, goaways.last()));
     }
     let nshut = ops.iter().filter(|o| matches!(o, SOp::Shutdown(_))).count();
-    if nshut > 0 && obs.shutdowns_done == nshut && goaways.is_empty() {
+    // (after a GOAWAY of the peer accept() writes a GOAWAY of its own; the harness drops a pending accept() when a shutdown
+    // command arrives, and under limited credit that may cancel this write after the id was recorded - section 6.3)
+    let implicit_goaway_may_be_cancelled = credit != UNLIMITED && ops.iter().any(|o| matches!(o, SOp::PeerGoaway));
+    if nshut > 0 && obs.shutdowns_done == nshut && goaways.is_empty() && !implicit_goaway_may_be_cancelled {
         return fail("shutdown() returned but no GOAWAY frame is on the control stream".into());
     }
     // ---- classification
@@ -504,7 +514,7 @@ fn gen_server_ops(t: &mut Tape, maxlen: usize, uniform: bool) -> Vec<SOp> {
     let n = t.pick(maxlen + 1);
     (0..n)
         .map(|_| {
-            let k = if uniform { t.pick(9) } else { t.weighted(&[4, 1, 1, 1, 1, 1, 2, 2, 1]) };
+            let k = if uniform { t.pick(10) } else { t.weighted(&[4, 1, 1, 1, 1, 1, 2, 2, 1, 1]) };
             match k {
                 0 => SOp::Arrive,
                 1 => SOp::ArriveLate,
@@ -514,6 +524,7 @@ fn gen_server_ops(t: &mut Tape, maxlen: usize, uniform: bool) -> Vec<SOp> {
                 5 => SOp::Shutdown(3),
                 6 => SOp::Complete,
                 8 => SOp::Shutdown(if uniform { usize::MAX } else { *t.choose(&BIGN) }),
+                9 => SOp::PeerGoaway,
                 _ => SOp::Settle,
             }
         })
@@ -618,6 +629,7 @@ fn run_direct(d: &Value, ctx: &mut Ctx) -> Verdict {
                             "ArriveLate" => Some(SOp::ArriveLate),
                             "Complete" => Some(SOp::Complete),
                             "Settle" => Some(SOp::Settle),
+                            "PeerGoaway" => Some(SOp::PeerGoaway),
                             s if s.starts_with("Shutdown(") => s[9..s.len() - 1].parse().ok().map(SOp::Shutdown),
                             _ => None,
                         })
